@@ -71,6 +71,17 @@ def write_replay(prop, modname, tier, cname, args, observed):
 def do_replay(path):
     with open(path) as f:
         blob = json.load(f)
+    if blob.get('kind') == 'real-implementation cross-check':
+        sys.path.insert(0, ROOT)
+        mod = importlib.import_module(blob['module'])
+        _, _, errs = mod.validate(blob.get('seed', 0), 'quick')
+        for e in errs:
+            print('observed:', e)
+        if errs:
+            print(f'VIOLATION property={blob["property"]} replay={path}')
+            return 1
+        print('replay: does not violate on the current tree')
+        return 0
     res = worker(blob['module'], blob['tier'], blob['condition'], 'concrete', blob['args'],
                  wall=600)
     print(json.dumps(res, indent=1))
@@ -246,7 +257,21 @@ def main(argv):
         try:
             validated, val_detail, val_err = mod.validate(seed, tier)
             for e in val_err:
-                harness_errors.append('validation: ' + e)
+                if getattr(mod, 'VALIDATION_CHECKS_PROPERTY', False):
+                    # the cross-check compares the real implementation with the property
+                    # itself (not with the model): a failure is a reproduced violation
+                    blob = {'property': prop, 'kind': 'real-implementation cross-check',
+                            'module': modname, 'seed': seed, 'observed': e,
+                            'how_to_replay': f'{modname}.validate({seed}, {tier!r})'}
+                    h = hashlib.sha1(e.encode()).hexdigest()[:12]
+                    d = os.path.join(ROOT, 'replays', prop)
+                    os.makedirs(d, exist_ok=True)
+                    rp = os.path.join(d, f'validate-{h}.json')
+                    with open(rp, 'w') as f:
+                        json.dump(blob, f, indent=1)
+                    violations.append(('validate', rp, e))
+                else:
+                    harness_errors.append('validation: ' + e)
         except Exception as e:
             import traceback
             harness_errors.append(f'validation crashed: {type(e).__name__}: {e} '
